@@ -64,7 +64,9 @@ CLAIMED = {
              "are exactly the lines containing the active index instantiated once per other object (inter) or once (intra), each once; "
              "shipped files well-formed by decide. Correspondence: real taggers on real occupancy/cells, real FactorTypeMaps on shipped and "
              "generated files, bit-exact; Counter oracle on the implementation.",
-        note="That the real occupancy establishes the invariant is C11's; the float detour inside translate/relative_cell is tied by "
+        note="That the occupancy establishes the invariant C10 assumes is now a theorem: JF/Props/C10C11.lean derives C10.OccInv (and restates the "
+             "partition theorems without any occupancy hypothesis) at every reachable state of C11's occupancy model; what remains is C11's "
+             "history premise and InGrid (position_to_cell lands in the cell system, C16). The float detour inside translate/relative_cell is tied by "
              "correspondence to the integer torus. KeyError on a leaf mentioned by no line of an intra-object type is modelled as a loud "
              "error outcome (outside the property; no shipped file affected).",
         technique="Lean 4 proof over hand-written models + bit-exact differential correspondence + Counter oracle",
@@ -133,7 +135,10 @@ CLAIMED = {
              "entry survives a pickle round trip bit for bit in its slot (code side of the premise of pickle_obsEq) and original and "
              "unpickled scheduler answer random futures with candidates within a few ulps of old ones identically.",
         note="dill's faithfulness on ordinary Python objects and the re-construction of the C potentials are exercised by the real runs, "
-             "not modelled. The transparency clause is compared up to the first tie of two candidate times.",
+             "not modelled. At the level of the composed mediator loop (JF/Props/C19Loop.lean) the pickled-and-restored heap scheduler is "
+             "proved invisible, ties and error outcomes included: resume_same_loop, resume_at_boundary, resume_repeated (any number of dumps "
+             "at any leg boundaries) for every reachable state and every future oracle list; activator bookkeeping, handlers and the list "
+             "scheduler are restored as identity (dill, trusted).",
         technique="Lean 4 proof (observational-equivalence lemma) + differential replay of dumped/resumed real runs",
         ref="§5 C19"),
     "C05": dict(
@@ -276,7 +281,11 @@ CLAIMED = {
              "roots and leaves); creators bit for bit; oracle oracle_c12 on recorded states and on directly created molecules.",
         note="Exact reading replaces the 1e-13 threshold by = 0 (stated in the file); float drift between a root and its members is "
              "measured by the oracle (tolerance tied to run length), not bounded by a theorem. Admissibility hypotheses are the code's "
-             "asserts plus the one-chain fact of C07.",
+             "asserts plus the one-chain fact of C07. The mode discipline of the event-kind sequence (leaf/root mode) that C12Chain needs is "
+             "derived from the wiring: decidable ModeSound over the reachable activation states, proved by decide for the 15 shipped composite "
+             "wirings (regenerated from the tree), modeStep_of_modeSound and the composed corollaries (JF/Props/ModeDiscipline.lean); what each "
+             "handler class commits (hkind) stays a hypothesis measured on every recorded commit (harness/modecorr.py). Dumped-and-resumed "
+             "composite runs (many dumps per run) are further histories judged by the oracle.",
         technique="Lean 4 proof (invariant by induction) over a hand-written model + bit-exact replay of recorded real runs + run-level oracle",
         ref="§5 C12, §4"),
     "C04": dict(
